@@ -337,6 +337,85 @@ def r_misc(s, file, log):
     return s
 
 
+SYN_NL = '\x01'   # synthetic newline added by a rewrite rule (does not advance the source line counter)
+
+
+def r12_msm_args(s, file, log):
+    """G::Group::msm(&A, &B)  ->  { let vx_mK = A;<nl>let vx_mK' = B;<nl>G::Group::msm(&vx_mK, &vx_mK') }
+    for arguments that are iterator pipelines ending in `.collect::<Vec<..>>()`.  Same evaluation order, same values;
+    it only gives the two argument vectors names so that proof steps can mention them."""
+    n = 0
+    while True:
+        m = rp.mask(s)
+        hit = None
+        for mm in re.finditer(r'G::Group::msm\(', m):
+            o = mm.end() - 1
+            c = rp.match_close(m, o)
+            inner = m[o + 1:c]
+            # split the two top-level arguments
+            d = 0
+            cut = None
+            for i, ch in enumerate(inner):
+                if ch in '([{':
+                    d += 1
+                elif ch in ')]}':
+                    d -= 1
+                elif ch == ',' and d == 0:
+                    cut = i
+                    break
+            if cut is None:
+                continue
+            a1 = s[o + 1:o + 1 + cut]
+            a2 = s[o + 1 + cut + 1:c]
+            a2s = a2.rstrip().rstrip(',').rstrip()
+            def pipeline(t):
+                t = t.strip()
+                return t.startswith('&') and re.search(r'\.collect::<Vec<[^;]*>>\(\)$', t) is not None and '\n' in t
+            if not (pipeline(a1) or pipeline(a2s)):
+                continue
+            hit = (mm.start(), o, c, a1, a2s)
+            break
+        if not hit:
+            break
+        st, o, c, a1, a2 = hit
+        lets = []
+        args = []
+        for a in (a1, a2):
+            t = a.strip()
+            if t.startswith('&') and re.search(r'\.collect::<Vec<[^;]*>>\(\)$', t) and '\n' in t:
+                n += 1
+                nm = 'vx_m%d' % n
+                lets.append('let %s = %s;' % (nm, a.strip()[1:].lstrip()))
+                args.append('&' + nm)
+            else:
+                args.append(a.strip())
+        new = '{ ' + SYN_NL.join(lets) + SYN_NL + 'G::Group::msm(' + ', '.join(args) + ') }'
+        old = s[st:c + 1]
+        log.add('R12:msm-args', file, rp.line_of(s.replace(SYN_NL, ''), st), '')
+        # keep every real newline of the old text (they are inside the argument expressions, which are kept)
+        d = old.count('\n') - new.count('\n')
+        s = s[:st] + new + ('\n' * d if d > 0 else '') + s[c + 1:]
+    return s
+
+
+def finish_linemap(s):
+    """returns (text with synthetic newlines made real, linemap: source line of every output line)"""
+    out_lines = []
+    linemap = []
+    src_line = 1
+    cur = []
+    for ch in s:
+        if ch == '\n':
+            out_lines.append(''.join(cur)); linemap.append(src_line); cur = []
+            src_line += 1
+        elif ch == SYN_NL:
+            out_lines.append(''.join(cur)); linemap.append(src_line); cur = []
+        else:
+            cur.append(ch)
+    out_lines.append(''.join(cur)); linemap.append(src_line)
+    return '\n'.join(out_lines), linemap
+
+
 def extract_file(repo_src, file, log):
     s = open(repo_src + '/' + file).read()
     s = strip_tests(s, file, log)
@@ -356,13 +435,18 @@ def extract_file(repo_src, file, log):
     s = r7_callbacks(s, file, log)
     s = r10_assert_eq(s, file, log)
     s = r11_drop(s, file, log)
-    return s
+    s = r12_msm_args(s, file, log)
+    return finish_linemap(s)
+
+
+LINEMAPS = {}
 
 
 def extract_all(repo_src):
     log = Log()
     del CODECS[:]
     out = {}
+    LINEMAPS.clear()
     for f in FILES:
-        out[f] = extract_file(repo_src, f, log)
+        out[f], LINEMAPS[f] = extract_file(repo_src, f, log)
     return out, log
